@@ -222,36 +222,50 @@ def merge(parts):
     return m
 
 
+def strata_of(mod):
+    """Modules whose cases fall into parts declare STRATA = {part: weight}: the case budget is then split between the
+    parts by weight and each part is generated by its own Hypothesis run (strategy(tier, part)).  Left to one top-level
+    draw the share of a part varied between 3% and 20% from seed to seed (Hypothesis re-uses and mutates earlier
+    examples), which made the detection of changes confined to one part a matter of the seed."""
+    st_ = getattr(mod, 'STRATA', None)
+    if not st_:
+        return [(None, 1.0)]
+    tot = float(sum(st_.values()))
+    return [(k, v / tot) for k, v in st_.items()]
+
+
 def run_generate(mod, tier, seed, n, col):
     """Pass 1: generate n cases, record everything, never fail."""
     import hypothesis
     from hypothesis import given
-    strat = mod.strategy(tier)
+    for si, (stratum, share) in enumerate(strata_of(mod)):
+        strat = mod.strategy(tier) if stratum is None else mod.strategy(tier, stratum)
+        k = n if stratum is None else max(1, int(round(n * share)))
 
-    @hypothesis.seed(seed)
-    @_settings(n)
-    @given(strat)
-    def t(case):
-        if col.harness_error:
-            return
-        try:
-            out = mod.check(case)
-        except Exception:
-            col.harness_error = ('check() raised on case %s\n%s'
-                                 % (canon(case)[:2000], traceback.format_exc()))
-            return
-        col.add(case, out)
-    t()
+        @hypothesis.seed(seed if stratum is None else seed * 31 + si)
+        @_settings(k)
+        @given(strat)
+        def t(case):
+            if col.harness_error:
+                return
+            try:
+                out = mod.check(case)
+            except Exception:
+                col.harness_error = ('check() raised on case %s\n%s'
+                                     % (canon(case)[:2000], traceback.format_exc()))
+                return
+            col.add(case, out)
+        t()
 
 
-def run_shrink(mod, tier, seed, n, label, budget_s):
+def run_shrink(mod, tier, seed, n, label, budget_s, stratum=None):
     """Pass 2: hypothesis search + shrink for one label.  Returns minimal case
     (as python object) or None."""
     import hypothesis
     from hypothesis import given
     import hypothesis.internal.conjecture.engine as eng
     eng.MAX_SHRINKING_SECONDS = budget_s
-    strat = mod.strategy(tier)
+    strat = mod.strategy(tier) if stratum is None else mod.strategy(tier, stratum)
     last = {}
 
     @hypothesis.seed(seed)
@@ -477,7 +491,8 @@ def main(argv=None):
             if not args.no_shrink and len(new_labels) <= 4:
                 try:
                     n = min(mod.CASES[args.tier], 3000)
-                    small = run_shrink(mod, args.tier, seed, n, lab, budget)
+                    stratum = case.get(getattr(mod, 'STRATA_KEY', 'part')) if getattr(mod, 'STRATA', None) and isinstance(case, dict) else None
+                    small = run_shrink(mod, args.tier, seed, n, lab, budget, stratum if stratum in getattr(mod, 'STRATA', {}) else None)
                 except Exception:
                     small = None
             if small is not None and len(canon(small)) <= len(v['case']):
